@@ -69,6 +69,11 @@ pub fn lock_state<K>(cas: &crate::CasInner<K>) -> u8 {
         | ((i.wal.is_locked() as u8) << 3)
 }
 
+/// Blob hashes protected by in-flight commits, with the number of intents holding each.
+pub fn protected_hashes<K: KeyBytes>(cas: &crate::CasInner<K>) -> Vec<(BlobHash, usize)> {
+    cas.index.pending_intents.lock().protected()
+}
+
 /// Hashes currently registered as pending intents, by key bytes.
 pub fn pending_intents<K: KeyBytes>(cas: &crate::CasInner<K>) -> Vec<(Vec<u8>, BlobHash)> {
     cas.index.pending_intents.lock().iter().map(|(k, h)| (k.to_key_bytes_owned(), *h)).collect()
